@@ -446,7 +446,7 @@ TERMINAL_COMMANDS = [
     ('pbgen', ['dimacs', '@CNF']), ('kthlist2pebbling', ['-i', '@DAG']), ('kthlist2pebbling', ['-q', '-i', '@DAG', 'xor', '2']),
     ('cnfgen', ['--seed', '3', 'randkcnf', '3', '8', '12']), ('pbgen', ['php', '3', '2']), ('cnfgen', ['-q', 'peb', 'kthlist', '@DAG']),
     ('cnfgen', ['--seed', '9', 'kcolor', '3', 'gnp', '6', '0.5']), ('cnfgen', ['--seed', '9', 'php', '4', '3', '-T', 'xorcomp', 'glrd', '12', '8', '3']),
-    ('cnfgen', ['-of', 'latex', 'op', '3']), ('pbgen', ['--varnames', 'subsetcard', '--seed', '2', '4', '2']),
+    ('cnfgen', ['-of', 'latex', 'op', '3']), ('pbgen', ['--varnames', '--seed', '2', 'subsetcard', '4', '2']),
     # long header lines (a graph description with two modifiers), in the three formats
     ('cnfgen', ['--seed', '9', 'kcolor', '3', 'gnp', '8', '0.5', 'plantclique', '4', 'addedges', '3']),
     ('pbgen', ['--seed', '4', 'domset', '2', 'gnm', '7', '9', 'addedges', '2', 'splitedges', '1']),
